@@ -134,7 +134,7 @@ PROPS["C03"] = {
         "NOT proved: schema → validator translation outside that fragment (gen/ir/validation.go), needValidation, additionalProperties handling, sum types, formats, regex matching, numbers other than integers in the composed model",
     ],
     "assumptions": ["OpenAPI 3.0 reading of `integer`: a number without fraction or exponent part, within the range of its format (int32; int64 and no format: 64 bits)", "multipleOf ≠ 0 (the generator refuses 0)"],
-    "level_text": "partial: server_accepts_iff_valid — on the model of the generated decode-then-Validate path for the fragment objects / arrays / integers with bounds and multipleOf / strings with lengths / booleans / required / nullable, the verdict is validity against the schema, for schemas and documents of any size — and the leaf validators and the required-mask arithmetic are Lean theorems for every value (int_validate_iff on all of int64, float_validate_iff on every finite double as an exact rational, length_iff, props_iff, unique_iff, required_mask_iff); 'accept iff valid' for whole schemas is decided on every run by posting schema-directed valid instances, single-keyword boundary mutants and random JSON to regenerated servers and comparing (status, handler-invoked) with an independent reference validator — a correspondence, not a theorem; allOf_bounds_iff / allOf_counts_iff: the numeric-bound and count blocks of the allOf merge (gen.mergeSchemes) accept exactly what both members accept, tied through verif hooks on exhaustive grids incl. the neighbours of 2^53",
+    "level_text": "partial: server_accepts_iff_valid — on the model of the generated decode-then-Validate path for the fragment objects / arrays / integers with bounds and multipleOf / strings with lengths / booleans / required / nullable, the verdict is validity against the schema, for schemas and documents of any size — and the leaf validators and the required-mask arithmetic are Lean theorems for every value (int_validate_iff on all of int64, float_validate_iff on every finite double as an exact rational, length_iff, props_iff, unique_iff, required_mask_iff); 'accept iff valid' for whole schemas is decided on every run by posting schema-directed valid instances, single-keyword boundary mutants and random JSON to regenerated servers and comparing (status, handler-invoked) with an independent reference validator — a correspondence, not a theorem; allOf_bounds_iff / allOf_counts_iff: the numeric-bound and count blocks of the allOf merge (gen.mergeSchemes) accept exactly what both members accept, tied through verif hooks on exhaustive grids incl. the neighbours of 2^53; allOf_enum_iff / allOf_enum_refused_iff (enum lists) and allOf_required_iff_partial / allOf_required_n_iff_partial / allOf_property_order (properties and required lists, for two members and for the left fold over any number of members) say the same for those blocks, tied through the hooks gen.VerifMergeEnums / VerifMergeProperties / VerifMergeNProperties",
     "level_note": "trusted: Lean kernel, statements, leaf models + their differential tie, the harness' reference validator and schema/instance generators, gencheck pipeline.",
     "technique": "Lean 4 proofs of the runtime validators on BitVec 64/Int and of the required bit mask; generated decode-and-validate path checked differentially against an independent reference validator on regenerated servers",
 }
@@ -267,7 +267,7 @@ PROPS["C11"] = {
         "NOT modelled and decided on the implementation only: every other part of parser and generator, bounded time/memory, the line:column clause beyond the scenarios named below. The mutation sweep (single-fault structural mutations of corpus specs, truncations, random bytes, 100- and 1000-deep nesting) runs ogen.Parse + gen.NewGenerator + WriteSource in memory under recover and a 30 s watchdog, in child processes of the harness (a Go fatal error such as a stack overflow cannot be recovered: the child dies, the document gets the outcome `fatal`, a new child is started); further streams: random oneOf/anyOf/allOf graphs with inline hops, `$ref`s one past the end of an array, located-diagnostic scenarios over two files (the position an error names must lie inside the file it names, at the faulty node)",
     ],
     "assumptions": ["a hung generation is detected by a watchdog, not interrupted"],
-    "level_text": "partial (modelled components only): path_key_total, ref_cycles_error, ref_depth_error, pointer_total, doc_split_total / doc_split_keeps_text / doc_split_line_bound (the doc-comment line breaker: terminates on every input, drops nothing but white space, bounds cut lines) are Lean theorems (totality is also built into the definitions: Lean accepts only terminating functions, Go panics are explicit outcomes). Totality of the rest of the generator is a mutation sweep over the corpus on every run, not a theorem.",
+    "level_text": "partial (modelled components only): path_key_total, ref_cycles_error, ref_depth_error, pointer_total, doc_split_total / doc_split_keeps_text / doc_split_line_bound (the doc-comment line breaker: terminates on every input, drops nothing but white space, bounds cut lines) are Lean theorems (totality is also built into the definitions: Lean accepts only terminating functions, Go panics are explicit outcomes). Totality of the rest of the generator is a mutation sweep over the corpus on every run, not a theorem.; location.Lines (the newline table and the byte range of a line: lines_collect_spec, lines_range_ok, lines_range_is_one_line) and the width of the listing's number column (listing_padding_nonneg, listing_padding_fits) are theorems for every document and line number, tied by running Lines.Collect/Line and File.PrintListing against the model",
     "level_note": "trusted: Lean kernel, statements, the component models and their ties (C12, C07, C16 checks), the mutation sweep harness.",
     "technique": "Lean 4 totality theorems for the modelled components (explicit panic outcome / structural termination); single-fault mutation sweep of corpus specs through the real parser and generator under recover + watchdog",
 }
@@ -284,7 +284,7 @@ PROPS["C10"] = {
         "NOT modelled, decided by search on every run: every other map range of parser and generator and what the templates read — each corpus / random / map-heavy document is generated 5 (thorough: 11) times in one process from a fresh parse with GOMAXPROCS in {1,2,4,16,…}, documents interleaved in different orders and the buffer pool poisoned through a verif hook, bytes compared; data races: a -race build of the harness generates the documents under the race detector (the Go memory model cannot be exhibited by the Lean model)",
     ],
     "assumptions": ["Go re-randomises map iteration order at every range statement (so repeated generation samples the orders)", "the race detector reports a race only when the racing accesses actually happen in a run"],
-    "level_text": "partial: sorted_keys_order_independent, string_table_spec / string_table_order_independent (the seen-set walk returns exactly the reachable types for any graph, any root order), schedule_independent (with the witness that distinct file names are needed), pool_independent and their composition files_independent_of_world_partial are Lean theorems over all graphs, map orders, schedules and pool contents; the model is tied to xmaps.SortedKeys, collectStrings and the observed writer schedules on every run. That no other place of the generator leaks map order, and the data-race clause, are decided by repeated generation and the race detector — a search, not a theorem.",
+    "level_text": "partial: sorted_keys_order_independent, string_table_spec / string_table_order_independent (the seen-set walk returns exactly the reachable types for any graph, any root order), schedule_independent (with the witness that distinct file names are needed), pool_independent and their composition files_independent_of_world_partial are Lean theorems over all graphs, map orders, schedules and pool contents; the model is tied to xmaps.SortedKeys, collectStrings and the observed writer schedules on every run. That no other place of the generator leaks map order, and the data-race clause, are decided by repeated generation and the race detector — a search, not a theorem.; response_order_independent: ir.sortResponseInfos orders the entries of the status-code map independently of the map's iteration order (false before fix 6497f487), tied through the hook ir.VerifSortResponseInfos",
     "level_note": "trusted: Lean kernel, statements, the hand-written ordering model and its ties, the verif hooks, Go's map-order randomisation and race detector as the search's oracles.",
     "technique": "Lean 4 proofs (DFS reachability invariant, canonicity of strictly sorted lists, commutation of writes to distinct names) over a hand-written model of WriteSource's ordering logic tied by differential correspondence; repeated in-process regeneration under varied GOMAXPROCS / document order / poisoned pool and a race-detector child as failing-input search",
 }
